@@ -40,6 +40,8 @@ def main(tier, replay=None):
     camp.run([], [["reset", "bulk %d %d" % (m, k)] for (m, k) in (((700, 3), (3000, 7), (12000, 2)) if quick else ((300, 1), (700, 3), (3000, 7), (12000, 2), (40000, 5), (60000, 11)))],
              "bulk", sample=False)
     camp.run([], [["reset", "cycles %d" % m] for m in ((40, 300) if quick else (10, 40, 300, 3000))], "ownership-cycles", sample=False)
+    # containers of Boxes, emptied Boxes and Boxes that never owned anything, deleted by the collector
+    camp.run([], [["reset", "boxcont %d" % m] for m in ((9, 40, 300) if quick else (5, 9, 40, 300, 3000))], "collected-containers", sample=False)
     # copies of views (Range, Slice, an iterated Zip) are managed objects like any other: made, collected, torn down
     camp.run([], [["reset", "viewcopy"], ["reset", "new 1 Node std", "root 1 1", "viewcopy", "root 0 0", "collect force", "viewcopy"]], "view-copies", sample=False)
     chk.cov["rule"] = ("an execution = one mutator program in its own process, including the teardown at exit; TLC checks per "
